@@ -279,6 +279,7 @@ Fixpoint subst (s : list expr) (e : expr) : expr :=
   | Mul a b => Mul (subst s a) (subst s b) | Div a b => Div (subst s a) (subst s b)
   | Fma a b c => Fma (subst s a) (subst s b) (subst s c)
   | Neg a => Neg (subst s a) | Max a b => Max (subst s a) (subst s b)
+  | Min a b => Min (subst s a) (subst s b) | Abs a => Abs (subst s a)
   | Ln a => Ln (subst s a) | Exp a => Exp (subst s a)
   | If c t e => If (bsubst s c) (subst s t) (subst s e)
   end
@@ -299,9 +300,9 @@ Fixpoint closed_below (n : nat) (e : expr) : bool :=
   match e with
   | Var k => Nat.ltb k n
   | Lit _ => true
-  | Add a b | Sub a b | Mul a b | Div a b | Max a b => closed_below n a && closed_below n b
+  | Add a b | Sub a b | Mul a b | Div a b | Max a b | Min a b => closed_below n a && closed_below n b
   | Fma a b c => closed_below n a && closed_below n b && closed_below n c
-  | Neg a | Ln a | Exp a => closed_below n a
+  | Neg a | Ln a | Exp a | Abs a => closed_below n a
   | If c t e => bclosed_below n c && closed_below n t && closed_below n e
   end
 with bclosed_below (n : nat) (c : bexpr) : bool :=
